@@ -67,7 +67,9 @@ func sweepSess(c *corr.Ctx, record bool, a net.IP, base int) *Scenario {
 
 func kernelScenarios(c *corr.Ctx) []*Scenario {
 	var out []*Scenario
-	add := func(k kcfg) { out = append(out, &Scenario{Kind: "kernel", Name: "kernel-" + k.String(), Cfg: k.String()}) }
+	add := func(k kcfg) {
+		out = append(out, &Scenario{Kind: "kernel", Name: "kernel-" + k.String(), Cfg: k.String()})
+	}
 	for _, rec := range []bool{false, true} {
 		for _, wild := range []bool{false, true} {
 			for _, any := range []bool{false, true} {
